@@ -3,7 +3,7 @@
    generated struct type (model decode = ReadFrom, model encode(decode) = WriteTo, byte-exact). *)
 From Coq Require Import List NArith ZArith Sorted.
 From TarsV Require Import Base.Hex Codec.Wire Codec.Skip Codec.SkipProofs Codec.Prim Codec.PrimProofs Codec.GenCodec Codec.Corr Codec.GenProofs
-  Codec.RoundTrip Codec.RoundTripProofs Codec.NormProofs Codec.WireSpec Codec.WireSpecProofs Codec.RoundTripExamples Codec.CanonProofs Codec.TypedProofs Codec.CanonExamples Codec.CorrT Gen.Schemas.
+  Codec.RoundTrip Codec.RoundTripProofs Codec.NormProofs Codec.WireSpec Codec.WireSpecProofs Codec.RoundTripExamples Codec.CanonProofs Codec.TypedProofs Codec.DeepConfProofs Codec.CanonExamples Codec.CorrT Gen.Schemas.
 Import ListNotations.
 Open Scope N_scope.
 
@@ -104,6 +104,16 @@ Theorem C03_wire_conformance : forall e k sid vs,
   encode e sid (VStruct vs) = ser_fields fs /\ fields_ok fs /\ conforms (fields_of e sid) fs /\
   StronglySorted N.lt (map fst fs).
 Proof. exact WireSpecProofs.encode_conforms. Qed.
+(* ... at EVERY depth, formally (Codec/DeepConfProofs.v): tconf / sconf say that a wire tree conforms to an IDL type
+   recursively - a struct value carries its members under their declared tags, in schema order, a member missing only
+   if optional, and each member's tree conforms to the member's type; every vector / array element sits under tag 0
+   (an array has exactly its declared length), every map key under tag 0 and value under tag 1; vector<byte> is a
+   SimpleList; every leaf has a wire type its reader accepts and no nesting *)
+Theorem C03_wire_tree_conforms : forall e t v, has_type e t v -> tconf e t (wire_of e t v).
+Proof. exact DeepConfProofs.wire_tconf. Qed.
+Theorem C03_wire_conformance_deep : forall e sid vs, has_type e (TStruct sid) (VStruct vs) ->
+  sconf e (fields_of e sid) (wire_fields e vs (fields_of e sid)).
+Proof. exact DeepConfProofs.wire_fields_sconf. Qed.
 (* every member and element, at any depth: the bytes are the serialised wire tree of the value, or nothing when the
    member is optional and left out *)
 Theorem C03_wire_member : forall e n, (forall tag req t d v, has_type e t v -> (need v <= n)%nat ->
@@ -211,6 +221,8 @@ Print Assumptions C03_code_schemas_wf.
 Print Assumptions C03_code_schemas_roundtrip.
 Print Assumptions C03_code_schemas_covered.
 Print Assumptions C03_wire_conformance.
+Print Assumptions C03_wire_tree_conforms.
+Print Assumptions C03_wire_conformance_deep.
 Print Assumptions C03_wire_member.
 Print Assumptions C03_int_narrowest.
 Print Assumptions C03_wire_admissible.
